@@ -1,0 +1,107 @@
+#include <nano/core/verif.h>
+
+#ifdef NANO_VERIF
+    #include <chrono>
+    #include <cstdlib>
+    #include <functional>
+    #include <thread>
+
+using namespace nano;
+
+namespace
+{
+int64_t env_or(const char* name, const int64_t fallback)
+{
+    const auto* const value = std::getenv(name); // NOLINT(concurrency-mt-unsafe)
+    return (value == nullptr || *value == '\0') ? fallback : static_cast<int64_t>(std::atoll(value));
+}
+
+std::atomic<int64_t>& sched_seed()
+{
+    static std::atomic<int64_t> seed{env_or("NANO_VERIF_SCHED", -1)};
+    return seed;
+}
+
+std::atomic<int64_t>& the_default_seed()
+{
+    static std::atomic<int64_t> seed{env_or("NANO_VERIF_SEED", -1)};
+    return seed;
+}
+
+std::atomic<size_t>& the_max_threads()
+{
+    static std::atomic<size_t> threads{static_cast<size_t>(std::max(int64_t{0}, env_or("NANO_VERIF_MAX_THREADS", 0)))};
+    return threads;
+}
+} // namespace
+
+std::atomic<verif::sink_t>& verif::sink()
+{
+    static std::atomic<sink_t> the_sink{nullptr};
+    return the_sink;
+}
+
+std::atomic<uint64_t>& verif::sequence()
+{
+    static std::atomic<uint64_t> the_sequence{0};
+    return the_sequence;
+}
+
+void verif::set_sched(const int64_t seed)
+{
+    sched_seed().store(seed);
+}
+
+void verif::yield_point(const int id)
+{
+    const auto seed = sched_seed().load(std::memory_order_relaxed);
+    if (seed < 0)
+    {
+        return;
+    }
+
+    // NB: per-thread xorshift generator seeded from the schedule seed and the thread id
+    thread_local uint64_t state = 0;
+    thread_local int64_t  owner = -1;
+    if (owner != seed)
+    {
+        owner = seed;
+        state = (static_cast<uint64_t>(seed) + 1U) * 0x9E3779B97F4A7C15ULL ^
+                std::hash<std::thread::id>{}(std::this_thread::get_id());
+        state |= 1U;
+    }
+    state ^= state << 13U;
+    state ^= state >> 7U;
+    state ^= state << 17U;
+
+    const auto draw = (state + static_cast<uint64_t>(id)) % 16U;
+    if (draw < 4U)
+    {
+        std::this_thread::yield();
+    }
+    else if (draw < 6U)
+    {
+        std::this_thread::sleep_for(std::chrono::microseconds((state >> 8U) % 200U));
+    }
+}
+
+size_t verif::max_threads()
+{
+    return the_max_threads().load();
+}
+
+void verif::set_max_threads(const size_t threads)
+{
+    the_max_threads().store(threads);
+}
+
+int64_t verif::default_seed()
+{
+    return the_default_seed().load();
+}
+
+void verif::set_default_seed(const int64_t seed)
+{
+    the_default_seed().store(seed);
+}
+#endif
